@@ -537,7 +537,7 @@ class Gen:
              st.one_of(st.none(), gt.ints(False, 64).map(lambda n: ("Some", n)))),
         ]
         src, dst, body, vals = self.pick(convs)
-        shape = self.pick(["list", "list", "map", "option"])
+        shape = self.pick(["list", "list", "map"])   # (MAP over an option is not implemented by pytezos: outside the supported set)
         if shape == "list":
             return [push(T("list", src), self.d(st.lists(vals, min_size=0 if self.d(st.integers(0, 5)) == 0 else 1, max_size=3))), P("MAP", body)]
         if shape == "option":
